@@ -502,7 +502,10 @@ def check_case(run, rt, sources, case, stats):
         return True
     r2 = try_(lambda: _compute(o2[1], ordered))
     if r2[0] == "raise" or r2[1] != r1[1]:
-        run.violation("optimize(optimize(q)) computes %s, optimize(q) computes %s: %s" % (_short(r2[1]), _short(r1[1]), what), dict(case, kind="rowcount-idempotence"))
+        # known finding D208: x = repartition(npartitions=2) combined with y = head(n, npartitions=-1) of one PARQUET source: AssertionError
+        fid = "D208" if (r2[0] == "raise" and "AssertionError" in str(r2[1]) and case.get("source", {}).get("kind") == "parquet"
+                         and {case.get("x"), case.get("y")} == {"repartition", "head-all-partitions"}) else None
+        run.violation("optimize(optimize(q)) computes %s, optimize(q) computes %s: %s" % (_short(r2[1]), _short(r1[1]), what), dict(case, kind="rowcount-idempotence"), finding=fid)
         return True
     if run.tier != "quick":
         o3 = try_(lambda: o2[1].optimize())
